@@ -8,8 +8,10 @@ package main
 // (scheme wrappers, udp fallback logic) never sees the fake connections.
 
 import (
+	"bytes"
 	"context"
 	"crypto/tls"
+	"encoding/binary"
 	"fmt"
 	"math/rand"
 	"net"
@@ -33,6 +35,8 @@ func realUpstreamReplies(seed int64, perProto int) {
 	}
 	var mu sync.Mutex
 	sent := map[int]uint16{} // seq -> flags the server used
+	sentMsg := map[int][]byte{}
+	sentShape := map[int]string{}
 	var answered atomic.Int64
 	h := func(q []byte, proto string, connID int, reply func([]byte)) {
 		qi, err := dnsadv.ParseQuery(q)
@@ -43,14 +47,47 @@ func realUpstreamReplies(seed int64, perProto int) {
 		x := uint32(qi.Seq) * 2654435761
 		flags := uint16(0x8000) | uint16(x>>3)&0x05B0 | uint16(x>>12)&0x000F // AA,RD,RA,AD,CD bits | rcode
 		flags &^= 0x0200
+		// shape of the reply: ordinary / header only (QDCOUNT=0, as FORMERR, NOTIMP and
+		// REFUSED replies often are) / question echoed with its letters re-cased. The ID,
+		// not the question, is what matches a reply to its query.
+		var msg []byte
+		shape := "ordinary"
+		k := x >> 28 % 5
+		if k == 1 && (proto == "tcp" || proto == "tls" || proto == "quic") {
+			// length-prefixed streams: mosdns refuses frames of 12 bytes or fewer, and the
+			// framing property (C16) is stated for lengths 13..65535 only
+			k = 0
+		}
+		switch k {
+		case 1:
+			shape = "header-only"
+			msg = make([]byte, 12)
+			binary.BigEndian.PutUint16(msg, qi.WireID)
+			binary.BigEndian.PutUint16(msg[2:], flags)
+		case 2:
+			shape = "question-re-cased"
+			qs := append([]byte(nil), qi.QSect...)
+			for i := 0; i < len(qs)-4; i++ {
+				if c := qs[i]; c >= 'a' && c <= 'z' {
+					qs[i] = c - 32
+				} else if c >= 'A' && c <= 'Z' {
+					qs[i] = c + 32
+				}
+			}
+			msg = dnsadv.Reply(qi.WireID, flags, qs, fmt.Sprintf("c02real/%s/%d", proto, qi.Seq), int(x>>20)%300, byte(x))
+		default:
+			msg = dnsadv.Reply(qi.WireID, flags, qi.QSect, fmt.Sprintf("c02real/%s/%d", proto, qi.Seq), int(x>>20)%300, byte(x))
+		}
 		mu.Lock()
 		_, again := sent[qi.Seq]
 		sent[qi.Seq] = flags
+		sentMsg[qi.Seq] = msg
+		sentShape[qi.Seq] = shape
 		mu.Unlock()
 		if !again {
 			answered.Add(1)
 		}
-		reply(dnsadv.Reply(qi.WireID, flags, qi.QSect, fmt.Sprintf("c02real/%s/%d", proto, qi.Seq), int(x>>20)%300, byte(x)))
+		reply(msg)
 	}
 	type sv struct {
 		name  string
@@ -116,14 +153,20 @@ func realUpstreamReplies(seed int64, perProto int) {
 							}
 							continue
 						}
-						ri, perr := dnsadv.ParseReply(*rb)
+						got := append([]byte(nil), *rb...)
 						pool.ReleaseBuf(rb)
-						if perr != nil || ri.Seq != seq || ri.Flags != fl {
-							rep.Violation("reply-altered-real-"+strings.ReplaceAll(s.name, "+", "_"), fmt.Sprintf("call q%d returned a reply that is not the one the server sent (token %q flags %#04x, sent flags %#04x, %v)", seq, ri.Token, ri.Flags, fl, perr), wit)
+						mu.Lock()
+						want := sentMsg[seq]
+						shape := sentShape[seq]
+						mu.Unlock()
+						if len(got) < 12 || !bytes.Equal(got[2:], want[2:]) || binary.BigEndian.Uint16(got) != id {
+							wit["returned_hex"] = fmt.Sprintf("%x", got[:min(len(got), 64)])
+							rep.Violation("reply-altered-real-"+strings.ReplaceAll(s.name, "+", "_"), fmt.Sprintf("call q%d (caller id %#04x) returned a reply that is not the one the server sent with the caller's id restored", seq, id), wit)
 							continue
 						}
 						rep.Count("real_replies_returned:"+s.name, 1)
-						rep.Nontrivial(fmt.Sprintf("real|%s|flags%04x", s.name, fl))
+						rep.Count("real_reply_shape:"+shape, 1)
+						rep.Nontrivial(fmt.Sprintf("real|%s|flags%04x|%s", s.name, fl, shape))
 					}
 				}()
 			}
